@@ -6,7 +6,9 @@ package child
 
 import (
 	"encoding/hex"
+	"encoding/json"
 	"fmt"
+	"strings"
 	"sync"
 
 	"github.com/janelia-flyem/dvid/datastore"
@@ -158,4 +160,39 @@ func execStore(op *proto.StoreOp, resp *proto.Resp) {
 	default:
 		fail(fmt.Errorf("unknown store op %q", op.Op))
 	}
+}
+
+// execProbe reports in-process state that has no HTTP endpoint.
+// URL "updating/<uuid>/<name>": the instance's idle flags, as downres.BlockOnUpdating polls them.
+func execProbe(req *proto.Req, resp *proto.Resp) {
+	parts := strings.Split(req.URL, "/")
+	if len(parts) == 3 && parts[0] == "updating" {
+		uuid, _, err := datastore.MatchingUUID(parts[1])
+		if err != nil {
+			resp.Status, resp.Err = 400, err.Error()
+			return
+		}
+		d, err := datastore.GetDataByUUIDName(uuid, dvid.InstanceName(parts[2]))
+		if err != nil {
+			resp.Status, resp.Err = 400, err.Error()
+			return
+		}
+		type updater interface{ Updating() bool }
+		type scaleUpdater interface{ AnyScaleUpdating() bool }
+		type syncer interface{ SyncPending() bool }
+		out := map[string]bool{}
+		if u, ok := d.(updater); ok {
+			out["updating"] = u.Updating()
+		}
+		if u, ok := d.(scaleUpdater); ok {
+			out["anyscale"] = u.AnyScaleUpdating()
+		}
+		if u, ok := d.(syncer); ok {
+			out["syncpending"] = u.SyncPending()
+		}
+		b, _ := json.Marshal(out)
+		resp.Status, resp.Body = 200, b
+		return
+	}
+	resp.Status, resp.Err = 400, "unknown probe "+req.URL
 }
